@@ -576,12 +576,6 @@ Proof.
 Qed.
 
 (* ------------------------------------------------------------------ slices: creation *)
-Definition wval (hp : heap) (a : arr) (off len : nat) : sval :=
-  match a with
-  | None => None
-  | Some i => option_map (fun b => (btr b, firstn len (skipn off (bview b)))) (hget hp i)
-  end.
-
 Lemma absh_sl hp h : hsl h = true -> absh hp h = (true, wval hp (hbuf h) (hoff h) (hlen h)).
 Proof.
   intros H. unfold absh, wval. rewrite H. destruct (hbuf h) as [i|]; [|reflexivity].
@@ -591,7 +585,7 @@ Qed.
 Lemma wval_hval hp hp' k off len : hval hp' k = hval hp k -> wval hp' (Some k) off len = wval hp (Some k) off len.
 Proof.
   unfold hval, wval. destruct (hget hp' k) as [b'|], (hget hp k) as [b|]; cbn [option_map]; try discriminate; auto.
-  unfold bval. intros H. inversion H as [[Ht Hv]]. rewrite Ht, Hv. reflexivity.
+  unfold bval, win. intros H. inversion H as [[Ht Hv]]. rewrite Ht, Hv. reflexivity.
 Qed.
 
 Definition window (v : sval) (off len : nat) : sval :=
@@ -680,37 +674,96 @@ Proof.
       rewrite (wval_hval _ _ _ _ _ V). unfold wval. rewrite Ec. reflexivity.
 Qed.
 
-(* ------------------------------------------------------------------ the statements of Properties.v *)
-Definition covered_op (o : op) : bool := array_op o.
+(* ------------------------------------------------------------------ slices: write *)
+Lemma s_write_hint h v nblk esz from d :
+  s_write h v nblk esz from d = s_write (whint (hcnt h) (hacc h)) v nblk esz from d.
+Proof. reflexivity. Qed.
 
-Theorem cow_step st o : inv st -> covered_op o = true ->
+Lemma step_write st x nblk esz from d : inv st -> step_ok st (OWrite x nblk esz from d).
+Proof.
+  intros I.
+  destruct (Nat.ltb_spec x (length (shnd st))) as [Hx|Hx].
+  2:{ apply guard_ok; [exact I| |].
+      - unfold step. cbn [target]. rewrite (proj2 (Nat.ltb_ge _ _) Hx). reflexivity.
+      - intros h. unfold sstep. cbn [target]. rewrite abs_length, (proj2 (Nat.ltb_ge _ _) Hx). reflexivity. }
+  destruct (hsl (hnd st x)) eqn:Hs.
+  2:{ apply guard_ok; [exact I| |].
+      - unfold step. cbn [target is_slice_op]. rewrite (proj2 (Nat.ltb_lt _ _) Hx), Hs. reflexivity.
+      - intros h. unfold sstep. cbn [target is_slice_op].
+        rewrite abs_length, (proj2 (Nat.ltb_lt _ _) Hx), nth_abs. unfold absh. rewrite Hs. reflexivity. }
+  unfold step_ok, step, sstep. cbn [target is_slice_op].
+  rewrite abs_length, (proj2 (Nat.ltb_lt _ _) Hx), Hs, nth_abs, (absh_sl _ _ Hs). cbn [negb Bool.eqb].
+  pose proof (slice_write_sem (sheap st) (hbuf (hnd st x)) (hoff (hnd st x)) (hlen (hnd st x)) nblk esz from d
+                (inv_aok st x I)) as S.
+  destruct (slice_write (sheap st) (hbuf (hnd st x)) (hoff (hnd st x)) (hlen (hnd st x)) nblk esz from d)
+    as [hp1 a1 off len n|hp1 a1 off len|]; cbn [sres_ok] in S; [| |contradiction].
+  - destruct S as [T Sp].
+    set (h' := mkh a1 true off len).
+    destruct (ptrans_sound st x _ hp1 a1 h' I Hx eq_refl T eq_refl) as [I' F].
+    split; [destruct (esz =? 0); discriminate|]. split; [exact I'|].
+    rewrite s_write_hint.
+    assert (Hh : whint (hcnt (hint_of st (OWrite x nblk esz from d) (if esz =? 0 then ODone 0 n else ODone n n)))
+                       (hacc (hint_of st (OWrite x nblk esz from d) (if esz =? 0 then ODone 0 n else ODone n n)))
+                 = whint (if esz =? 0 then 0 else n) true).
+    { unfold hint_of. destruct (hbuf (hnd st (target (OWrite x nblk esz from d)))) as [i|];
+        [destruct (hget (sheap st) i)|]; destruct (esz =? 0); reflexivity. }
+    rewrite Hh, Sp. cbn [fst snd].
+    rewrite (abs_frame st x hp1 h' Hx F), (absh_sl hp1 h') by reflexivity. cbn [hbuf hoff hlen h'].
+    destruct (esz =? 0); reflexivity.
+  - destruct S as [T [Sp Wv]].
+    set (h' := mkh a1 true off len).
+    destruct (ptrans_sound st x _ hp1 a1 h' I Hx eq_refl T eq_refl) as [I' F].
+    split; [discriminate|]. split; [exact I'|].
+    rewrite s_write_hint.
+    assert (Hh : whint (hcnt (hint_of st (OWrite x nblk esz from d) ORefused))
+                       (hacc (hint_of st (OWrite x nblk esz from d) ORefused)) = whint 0 false).
+    { unfold hint_of. destruct (hbuf (hnd st (target (OWrite x nblk esz from d)))) as [i|];
+        [destruct (hget (sheap st) i)|]; reflexivity. }
+    rewrite Hh, Sp. cbn [fst snd vis].
+    rewrite (abs_frame st x hp1 h' Hx F), (absh_sl hp1 h') by reflexivity. cbn [hbuf hoff hlen h'].
+    rewrite Wv. reflexivity.
+Qed.
+
+Theorem cow_step_all st o : inv st -> step_ok st o.
+Proof.
+  intros I. destruct o;
+    auto using step_append, step_insert, step_set, step_slice, step_clone, step_reduce,
+               step_bufinsert, step_bufcut, step_bufset, step_new, step_flags,
+               step_reserve, step_printf, step_string, step_mkslice, step_write.
+Qed.
+
+(* ------------------------------------------------------------------ the statements of Properties.v *)
+Theorem cow_step st o : inv st ->
   let '(st', out) := step st o in
   out <> OFault /\ inv st' /\ sstep (abs st) o (hint_of st o out) = (abs st', vis out).
-Proof. intros I C. exact (cow_step_arrays st o I C). Qed.
+Proof. intros I. exact (cow_step_all st o I). Qed.
 
-Theorem cow_others st o y : inv st -> covered_op o = true -> y <> target o ->
-  view (fst (step st o)) y = view st y.
-Proof. intros I C. apply others_unchanged_gen. exact (cow_step_arrays st o I C). Qed.
+Theorem cow_others st o y : inv st -> y <> target o -> view (fst (step st o)) y = view st y.
+Proof. intros I. apply others_unchanged_gen. exact (cow_step_all st o I). Qed.
 
-Theorem cow_histories ops st : inv st -> forallb covered_op ops = true ->
+Theorem cow_histories ops st : inv st ->
   run_abs st ops = srun st (abs st) ops /\
   Forall (fun r => snd r <> OFault /\ inv (fst r)) (run st ops).
-Proof. apply (histories_gen covered_op). intros s o I C. exact (cow_step_arrays s o I C). Qed.
-
-Theorem refused_unchanged st o : inv st -> covered_op o = true ->
-  snd (step st o) = ORefused \/ snd (step st o) = OGuard -> abs (fst (step st o)) = abs st.
-Proof. intros I C. apply refused_unchanged_gen. exact (cow_step_arrays st o I C). Qed.
-
-Theorem model_no_fault st o : inv st -> covered_op o = true -> snd (step st o) <> OFault.
 Proof.
-  intros I C. pose proof (cow_step_arrays st o I C) as S. unfold step_ok in S.
+  intros I. apply (histories_gen (fun _ => true)); auto.
+  - intros s o Is _. exact (cow_step_all s o Is).
+  - clear. induction ops; simpl; auto.
+Qed.
+
+Theorem refused_unchanged st o : inv st ->
+  snd (step st o) = ORefused \/ snd (step st o) = OGuard -> abs (fst (step st o)) = abs st.
+Proof. intros I. apply refused_unchanged_gen. exact (cow_step_all st o I). Qed.
+
+Theorem model_no_fault st o : inv st -> snd (step st o) <> OFault.
+Proof.
+  intros I. pose proof (cow_step_all st o I) as S. unfold step_ok in S.
   destruct (step st o) as [st' out]. tauto.
 Qed.
 
-Theorem ref_inv ops n m : forallb covered_op ops = true ->
+Theorem ref_inv ops n m :
   Forall (fun r => forall i b, hget (sheap (fst r)) i = Some b -> bref b = count_refs (shnd (fst r)) i)
          (run (init n m) ops).
 Proof.
-  intros A. destruct (cow_histories ops (init n m) (init_inv n m) A) as [_ F].
+  destruct (cow_histories ops (init n m) (init_inv n m)) as [_ F].
   eapply Forall_impl; [|exact F]. intros r [_ I] i b E. apply ref_inv_of_inv; assumption.
 Qed.
